@@ -6,6 +6,7 @@
 import SchedVerif.Lemmas.Select
 import SchedVerif.Spec.Select
 import SchedVerif.Model.Sched
+import SchedVerif.Lemmas.Exec
 namespace SV
 
 variable {α : Type}
@@ -220,5 +221,87 @@ theorem C05.twin_sound (k : Nat) (l : List (Nat × Rat)) (hn : (l.map (·.1)).No
 
 /-! non-vacuity: a table with ties, a zero and a negative entry is duplicate-free -/
 example : [((1:Nat), (1:Rat)), (2, 3), (3, 0), (4, 3), (5, -1)].Nodup := by simp
+
+/-! ### the jobs a call leaves waiting stay exactly as they were -/
+
+theorem runOne_find_ne (clock : Int) (raises : List Nat) (s : State) (inv : List Invoc) (k k' : Nat) (h : k' ≠ k) :
+    (runOne clock raises [] (s, inv) k').1.find k = s.find k := by
+  unfold runOne
+  simp only []
+  cases hf : s.find k' with
+  | none => rfl
+  | some sj =>
+      simp only [List.lookup, Option.getD_none, List.foldl_nil]
+      show (s.setJob k' (fun j => j.exec1 (raises.contains k'))).find k = s.find k
+      exact State.setJob_find_ne s k' k _ h
+
+theorem runFold_find_ne (clock : Int) (raises : List Nat) (B : List Nat) (s : State) (inv : List Invoc) (k : Nat)
+    (h : k ∉ B) : (B.foldl (runOne clock raises []) (s, inv)).1.find k = s.find k := by
+  induction B generalizing s inv with
+  | nil => rfl
+  | cons b bs ih =>
+      simp only [List.foldl_cons]
+      have hb : b ≠ k := fun e => h (by simp [e])
+      have hpair : runOne clock raises [] (s, inv) b =
+          ((runOne clock raises [] (s, inv) b).1, (runOne clock raises [] (s, inv) b).2) := rfl
+      rw [hpair, ih _ _ (fun hm => h (List.mem_cons_of_mem _ hm))]
+      exact runOne_find_ne clock raises s inv k b hb
+
+theorem postOne_find_ne (ref : DT) (s : State) (k k' : Nat) (h : k' ≠ k) : (postOne ref s k').find k = s.find k := by
+  have h1 := State.setJob_find_ne s k' k (fun j => j.calcNext ref) h
+  unfold postOne
+  simp only []
+  cases hf : (s.setJob k' fun j => j.calcNext ref).find k' with
+  | none => exact h1
+  | some sj =>
+      simp only []
+      by_cases ha : sj.job.hasAttempts = true
+      · simp only [ha, if_true]; exact h1
+      · simp only [ha]; exact h1
+
+theorem postFold_find_ne (ref : DT) (B : List Nat) (s : State) (k : Nat) (h : k ∉ B) :
+    (B.foldl (postOne ref) s).find k = s.find k := by
+  induction B generalizing s with
+  | nil => rfl
+  | cons b bs ih =>
+      simp only [List.foldl_cons]
+      rw [ih _ (fun hm => h (List.mem_cons_of_mem _ hm))]
+      exact postOne_find_ne ref s k b (fun e => h (by simp [e]))
+
+/-- **a job the call does not invoke is left exactly as it was** - due time, attempts, failures,
+    everything - whatever `max_exec`, the priority function and the other jobs are; in particular a
+    due job that the limit passes over keeps its occurrence and its lateness for the next call
+    ("over repeated calls until the backlog is drained") -/
+theorem C05.left_waiting_unchanged (s : State) (clock : Int) (force : Bool) (order raises : List Nat) (k : Nat)
+    (hk : k ∉ (execJobs s clock force order raises []).2.invoked.map (·.key))
+    (hall : ∀ k' ∈ order, k' < s.heap.length) (hperm : isPermOf order s.reg = true) :
+    (execJobs s clock force order raises []).1.find k = s.find k := by
+  unfold execJobs at hk ⊢
+  simp only [hperm, if_true] at hk ⊢
+  generalize hB : (if force = true then order
+      else List.map (fun x => x.1) (selectBatch s.maxExec (List.map (fun k => (k, prioOf s.prio (lateness s (nowDT s.tz clock) k) (weightOf s k))) order))) = B at hk ⊢
+  have hBreg : ∀ b ∈ B, b < s.heap.length := by
+    intro b hb
+    apply hall
+    have hsub : ∀ x ∈ B, x ∈ order := by
+      subst hB
+      intro x hx
+      by_cases hf : force = true
+      · simpa [hf] using hx
+      · simp only [hf] at hx
+        obtain ⟨p, hp, rfl⟩ := List.mem_map.mp hx
+        have := (C05.subset s.maxExec _ p hp)
+        obtain ⟨y, _, hy⟩ := List.mem_map.mp this
+        rw [← hy]; assumption
+    exact hsub b hb
+  have hkeys := (runOne_fold_plain clock raises B s [] hBreg).1
+  simp only [List.map_nil, List.nil_append] at hkeys
+  have hkB : k ∉ B := by
+    intro hm
+    apply hk
+    show k ∈ List.map (fun x => x.key) (B.foldl (runOne clock raises []) (s, [])).2
+    rw [hkeys]; exact hm
+  show ((B.foldl (postOne (nowDT s.tz clock)) (B.foldl (runOne clock raises []) (s, [])).1)).find k = s.find k
+  rw [postFold_find_ne _ _ _ _ hkB, runFold_find_ne _ _ _ _ _ _ hkB]
 
 end SV
